@@ -36,37 +36,19 @@ else:
 def sync_coq_mirror():
     if COQ == COQ_SRC:
         return
-    os.makedirs(COQ, exist_ok=True)
-    # sources and compiled files (so that unchanged proofs are not rebuilt), but never the other tree's Gen
-    r = subprocess.run(["rsync", "-a", "--delete", "--exclude", "Gen/", "--exclude", "extracted/", "--exclude", "Makefile*",
-                        "--exclude", "_CoqProject", "--exclude", ".Makefile.d", "--exclude", "*.aux", "--exclude", "*.glob",
-                        "--exclude", "*.vos", "--exclude", "*.vok", "--exclude", ".*.cache",
-                        COQ_SRC + "/", COQ + "/"], stdout=subprocess.PIPE, stderr=subprocess.PIPE)
+    common = ["--exclude", "extracted/", "--exclude", "Makefile*", "--exclude", "_CoqProject", "--exclude", ".Makefile.d",
+              "--exclude", "*.aux", "--exclude", "*.glob", "--exclude", "*.vos", "--exclude", "*.vok", "--exclude", ".*.cache"]
+    if not os.path.isdir(COQ):
+        # first use: take everything, compiled files and the current coq/Gen included (times preserved), so that only
+        # what the scratch repository really changes in Gen is rebuilt
+        os.makedirs(COQ, exist_ok=True)
+        cmd = ["rsync", "-a"] + common + [COQ_SRC + "/", COQ + "/"]
+    else:
+        # later uses: sources only (never the other tree's Gen or compiled files)
+        cmd = ["rsync", "-a", "--delete", "--exclude", "Gen/", "--exclude", "*.vo"] + common + [COQ_SRC + "/", COQ + "/"]
+    r = subprocess.run(cmd, stdout=subprocess.PIPE, stderr=subprocess.PIPE)
     if r.returncode not in (0, 23, 24):   # 23/24: a file changed or vanished under a concurrent build; make rebuilds what is stale
         raise RuntimeError("rsync of the Coq tree failed: " + r.stderr.decode("utf8", "replace")[-500:])
-OUT = os.path.join(ROOT, "out")          # replay files, logs (git-ignored)
-EVID = os.path.join(ROOT, "evidence")
-GUARD = "uazu_stakker_verif"
-NCPU = os.cpu_count() or 4
-
-ENV_OFFLINE = {"CARGO_NET_OFFLINE": "true", "GOPROXY": "off", "PIP_NO_INDEX": "1"}
-
-FORBIDDEN = re.compile(
-    r"\b(Admitted|admit|Axiom|Axioms|Parameter|Parameters|Conjecture|Conjectures|Hypothesis|Hypotheses|Variable|Variables|"
-    r"Admit Obligations|bypass_check|Unset Guard Checking|Unset Positivity Checking|Unset Universe Checking|"
-    r"type-in-type|impredicative-set|native_compute)\b")
-# `Variable`/`Hypothesis` are allowed inside a Section only; lint() checks that separately.
-
-# Axioms of the Coq standard library that a theorem may depend on (each is named in the trusted base
-# whenever Print Assumptions reports it).  Anything else is a lint failure.
-ALLOWED_AXIOMS = {
-    "Coq.Logic.FunctionalExtensionality.functional_extensionality_dep",
-    "functional_extensionality_dep",
-    "Coq.Logic.ProofIrrelevance.proof_irrelevance",
-    "Coq.Logic.Classical_Prop.classic",
-    "Coq.Logic.Eqdep.Eq_rect_eq.eq_rect_eq",
-    "Coq.Logic.JMeq.JMeq_eq",
-}
 
 
 def log(msg):
